@@ -82,6 +82,24 @@ CHECKS["C16"] = dict(
     text="Theorems in coq/Properties/C16.v: events on one connection leave all others untouched; a stream error surfaced by recv disconnects exactly that peer and cannot be yielded again (only registered streams yield); a disconnected peer is in no table, both halves released, nobody else touched; no later round-robin or routed send reaches it. Real sockets: nine types x every byte offset of greeting+READY+messages x {EOF, reset, write error} x 0-2 other peers: others served, at most one error, halves released, nothing routed afterwards. Known finding clean-eof-keeps-write-half is listed and reported as such.",
     note=SOCK_NOTE + " Descriptor release is the OS's: the model says 'both halves dropped', the harness observes the drop of the scripted halves. PUB/XPUB see a write error only once the buffer reaches the high-water mark (try_send ignores the flush result).", design="4 C16")
 
+RT_NOTE = "Trusted: kernel, translator, extraction, driver, harness. PARTIAL: the theorems are about the library's bookkeeping / ownership / task structure; what the OS answers to bind, that tokio runs every runnable task, that a cancelled oneshot is observed, that dropping the last owner closes a descriptor, and timing ('shortly afterwards' = 600 ms grace) are observed on the real runtime by harness/src/rt.rs (multi-thread tokio, real TCP v4/v6/localhost and IPC, raw clients), never proved."
+CHECKS["C17"] = dict(
+    technique="Coq proof on an ownership model of what a socket keeps alive (partial: runtime observed) + re-read structure of every shutdown path + the property's 270-cell grid on the real runtime",
+    text="Theorems in coq/Properties/C17.v: after drop/close no endpoint is listened on, the peer table, fair queue, reader tasks and bind map are released, and a connection stays open only if an unfinished handshake task owns it; without clearing the queue a polled stream's connection survives (the repaired defect, kept as a theorem); every backend's shutdown() clears table and queue and all nine socket types shut down on Drop (re-read from the source). Real runtime: type x transport x history prefix x {close, drop}: old endpoint refuses, IPC path gone, every raw peer sees EOF, tasks terminate; the pending-handshake prefix is a listed known finding.",
+    note=RT_NOTE, design="4 C17")
+CHECKS["C18"] = dict(
+    technique="Coq proof on a bind-table model against an OS oracle (partial: OS observed) + seeded bind/unbind/connect sequences on real sockets with the OS's answers replayed into the extracted model",
+    text="Theorems in coq/Properties/C18.v: for every operation sequence the bind set equals the set of endpoints listened on; a successful bind adds exactly the resolved endpoint, a failed bind changes nothing, unbind removes that endpoint and only it, unbind of anything else is NoSuchBind and changes nothing. Real sockets over the real OS: wildcard ports resolve to non-zero ports whose text re-parses, duplicates fail, fresh connects to every endpoint ever bound are accepted iff it is still bound, messages keep flowing on earlier connections.",
+    note=RT_NOTE, design="4 C18")
+CHECKS["C19"] = dict(
+    technique="Coq proof (iff with a declarative grammar, round-trip law, literal classification, slice safety; IPv6 text laws as explicit premises) + exhaustive small-alphabet sweep of the real parser against the extracted model and an independent reference",
+    text="Theorems in coq/Properties/C19.v: parse s = Some e iff the declarative grammar accepts (s, e) - exactly lower-case tcp://host:port with non-empty host and decimal port 0..65535, and ipc://non-empty-path; parse(fmt(e)) = e for every parsed e (IPv6 bracketed); IPv4 and IPv6 literals (bare or bracketed) are addresses, never domains; the one byte slice is in range and on character boundaries. Real parser: every string of length <=3/4 over 15 characters after 5 prefixes, grammar-generated near-valid endpoints, random Unicode, against the model and a Python re + ipaddress reference.",
+    note="Trusted: kernel, translator, extraction, driver, harness. The regex crate's semantics for the two patterns and std::net's IPv4/IPv6 text forms are third-party: modelled by meaning. std's IPv6 text form enters the theorems as two explicit premises (ip6_chars_law, ip6_print_law) and the driver as a hand-written OCaml instantiation; both are exercised by the differential run. UTF-8 byte indexing is abstracted to code points with a byte-length function.", design="4 C19")
+CHECKS["C20"] = dict(
+    technique="Coq proof on the task-structure model (partial: scheduler fairness assumed) + stalled/closed/garbage handshakes at every byte offset on real TCP and IPC listeners with well-behaved clients before, during and after",
+    text="Theorems in coq/Properties/C20.v: accepting is enabled whenever the bind is not stopped, whatever state any handshake task is in, and touches neither peer tables nor monitor; a handshake task is touched only by its own connection's events and its outcome is a function of its own bytes (chunking-independent); only the final step of a handshake touches the socket; a refused handshake is reported as AcceptFailed and leaves the peer set unchanged. Real runtime: every bound socket type x {TCP, IPC} x {stop, close, garbage} x byte offsets, 1-8 misbehaving clients: well-behaved clients complete and exchange messages; monitor events match the handshake model's verdicts.",
+    note=RT_NOTE + " A change that runs the handshake inline in the accept loop changes the structure the model assumes: it is caught on the real runtime (the well-behaved client never completes).", design="4 C20")
+
 NOT_YET = {
 }
 
